@@ -946,6 +946,10 @@ func (v Value) toReflectValue(typ reflect.Type) (reflect.Value, error) {
 				// undefined / null: the zero value (nil for interfaces), not an invalid reflect.Value
 				return reflect.Zero(typ), nil
 			}
+			if v.kind == valueString {
+				// Not the payload, which may be the UTF-16 form of the string.
+				return assignable(reflect.ValueOf(v.string()))
+			}
 			return assignable(reflect.ValueOf(v.value))
 		}
 	}
